@@ -273,3 +273,42 @@ def replay_attr_place(s, klen, vstart, vlen, where, header=False):
 
     walk(root)
     return ("parse(" + repr(doc) + ")", not found or found[0] != want, f"{where} attributes {found[:1]}, written {want}")
+
+
+# ---------------------------------------------------------------- argument separator inside links / templates / parameter references
+def vbar_args_step(kind_i: int, n_prev: int, txt: str) -> bool:
+    """`|` inside an argument-carrying node closes the current argument: the collected children become the next entry of
+    largs, in order, and collection restarts empty; the stack does not change."""
+    kinds = [K.LINK, K.TEMPLATE, K.TEMPLATE_ARG, K.PARSER_FN]
+    ctx.start_page("T")
+    root = WikiNode(K.ROOT, 0)
+    ctx.parser_stack = [root]
+    ctx.pre_parse = False
+    ctx.linenum = 2
+    ctx.suppress_special = False
+    ctx.begline_enabled = True
+    ctx.begline_disable_counter = 0
+    ctx.beginning_of_line = False
+    ctx.wsp_beginning_of_line = False
+    node = _parser_push(ctx, kinds[kind_i])
+    prev = [["p%d" % i] for i in range(n_prev)]
+    node.largs = [list(x) for x in prev]
+    node.children.append(txt)
+    before = list(ctx.parser_stack)
+    vbar_fn(ctx, "|")
+    return ctx.parser_stack == before and node.children == [] and node.largs == prev + [[txt]]
+
+
+def replay_vbar_args(kind_i, n_prev, txt):
+    w = Wtp(quiet=True, quiet_output=True)
+    w.start_page("T")
+    opener, closer = [("[[", "]]"), ("{{", "}}"), ("{{{", "}}}"), ("{{#if:", "}}")][kind_i]
+    args = ["p%d" % i for i in range(n_prev)] + [txt, "last"]
+    doc = opener + "|".join(args) + closer
+    root = w.parse(doc)
+    nodes = [c for c in root.children if isinstance(c, WikiNode)]
+    got = [a for a in (nodes[0].largs if nodes else [])]
+    flat = ["".join(x for x in a if isinstance(x, str)) for a in got]
+    want = args if kind_i != 3 else None
+    bad = want is not None and flat != want
+    return ("parse(" + repr(doc) + ")", bad, f"argument list {flat}, written {want}")
